@@ -19,7 +19,7 @@ package wal
 import "sync/atomic"
 
 // Verification harness: what happens to the memory-mapped file of a read-write segment
-// (kind = "append" | "flush" | "close"; base = base offset of the segment; offset = last entry offset of
+// (kind = "append" | "before-flush" | "flush" | "close"; base = base offset of the segment; offset = last entry offset of
 // the segment at that moment; fileOffset = end of the written part of the file).
 type verifSegmentHookFn func(kind string, base int64, offset int64, fileOffset uint32)
 
@@ -48,8 +48,12 @@ func (ms *readWriteSegment) verifEventLocked(kind string) {
 // of the file, packed); called without the segment's lock.
 func (ms *readWriteSegment) verifFlushMark() uint64 {
 	ms.RLock()
-	defer ms.RUnlock()
-	return uint64(uint32(ms.lastOffset-ms.c.baseOffset+1))<<32 | uint64(ms.currentFileOffset)
+	base, last, fo := ms.c.baseOffset, ms.lastOffset, ms.currentFileOffset
+	ms.RUnlock()
+	// the caller (the sync goroutine) holds no lock here: the hook may let other WAL operations happen
+	// between the choice of the segment to flush and the msync
+	verifSegmentEvent("before-flush", base, last, fo)
+	return uint64(uint32(last-base+1))<<32 | uint64(fo)
 }
 
 // verifEventFlushed: the msync that started at `mark` has succeeded.
